@@ -176,7 +176,8 @@ class Sweep:
         }
 
     def expected_calls(self):
-        return sorted(calllog.key(kw) for _, kw in self.settings())
+        # (by repr: one argument's values may be of different types)
+        return sorted((calllog.key(kw) for _, kw in self.settings()), key=repr)
 
 
 def walk_nested(nested, axes):
